@@ -826,6 +826,15 @@ def shards(tier, seed):
             shard("gate", [j])
         out.append({"family": "util", "n": 400, "weight": 1})
         out.append({"family": "util", "n": 400, "weight": 1})
+        # sibling systems: several composite systems of the SAME shape but different bases (and the same basis again)
+        # in ONE process, so that tables shared or cached across composite systems show up against the defining
+        # formulas (the thorough tier does this for every family anyway); missed seeded change C02-3
+        for fam in ("state", "povm", "gate"):
+            for shape in ("S1", "S3"):
+                jobs = []
+                for kind in ("std", "rot", "nherm", "std"):
+                    jobs += split(fam, shape, kind, 1, 4, stride=7 if fam == "gate" else 2)[:1]
+                shard(fam, jobs)
     else:
         for shape in ("S1", "S3", "S2", "S23", "S23p"):
             shard("state", [j for kind in HERM_KINDS for j in split("state", shape, kind, 1, 40)])
